@@ -306,7 +306,78 @@ let parse_pres = function
   | "eh" -> POwnEh
   | _ -> POwnDebug
 
-type absdata = AbsNone | AbsDwarf of pres * fde list
+type absdata = AbsNone | AbsDwarf of pres * fde list | AbsPe of pe_data
+
+let parse_hex_bytes (s : string) : n list =
+  if s = "-" then []
+  else begin
+    let len = String.length s / 2 in
+    let rec go i acc =
+      if i < 0 then acc
+      else go (i - 1) (n_of_int64 (Int64.of_string ("0x" ^ String.sub s (2 * i) 2)) :: acc)
+    in
+    go (len - 1) []
+  end
+
+let parse_uop (k : toks) : uop =
+  match next k with
+  | "pop" -> UPop (nx k)
+  | "alloc" -> UAlloc (nx k)
+  | "setfp" -> USetFp
+  | "save" ->
+    let r = nx k in
+    let o = nx k in
+    USaveNonvol (r, o)
+  | "savexmm" -> USaveXmm (nx k)
+  | "mach" -> UMachFrame (ix k <> 0)
+  | s -> failwith ("bad uop " ^ s)
+
+let parse_pe (k : toks) : pe_data =
+  let nf = ix k in
+  let rec funcs i =
+    if i = 0 then []
+    else begin
+      let b = nx k in
+      let e = nx k in
+      let u = nx k in
+      { rt_begin = b; rt_end = e; rt_uinfo = u } :: funcs (i - 1)
+    end
+  in
+  let fl = funcs nf in
+  let nu = ix k in
+  let rec uinfos i =
+    if i = 0 then []
+    else begin
+      let rva = nx k in
+      let ok = ix k <> 0 in
+      let fpr = (match next k with "-" -> None | s -> Some (n_of_string s)) in
+      let fpo = nx k in
+      let nops = ix k in
+      let rec ops j =
+        if j = 0 then []
+        else begin
+          let off = nx k in
+          let o = parse_uop k in
+          (off, o) :: ops (j - 1)
+        end
+      in
+      let ol = ops nops in
+      let ch = (match next k with "-" -> None | s -> Some (n_of_string s)) in
+      let u = { ui_fpreg = fpr; ui_fpoff = fpo; ui_ops = ol; ui_chain = ch } in
+      (rva, (if ok then Some u else None)) :: uinfos (i - 1)
+    end
+  in
+  let ul = uinfos nu in
+  let text =
+    match next k with
+    | "text" ->
+      let lo = nx k in
+      let hi = nx k in
+      let bytes = parse_hex_bytes (next k) in
+      Some ((lo, hi), bytes)
+    | _ -> None
+  in
+  { pe_funcs = fl; pe_uinfos = ul; pe_text = text }
 
 let parse_abs (k : toks) : absdata =
   match next k with
@@ -315,6 +386,7 @@ let parse_abs (k : toks) : absdata =
     let p = parse_pres (next k) in
     let fs = parse_fdes k in
     AbsDwarf (p, fs)
+  | "pe" -> AbsPe (parse_pe k)
   | s -> failwith ("bad abstract data " ^ s)
 
 (* ---------- per-architecture runner ---------- *)
@@ -432,7 +504,7 @@ let run_x86 (lines : string list) : unit =
             let ba = nx k in
             let bs = nx k in
             skip_to k "A";
-            let d = match parse_abs k with AbsNone -> MNone | AbsDwarf (p, fs) -> MDwarf (p, fs) in
+            let d = match parse_abs k with AbsNone -> MNone | AbsDwarf (p, fs) -> MDwarf (p, fs) | AbsPe pe -> MPe pe in
             Hashtbl.replace mods id { mstart = st; mend = en; base_avma = ba; base_svma = bs; mdat = d };
             "ok"
           | "new" ->
@@ -573,7 +645,7 @@ let run_a64 (lines : string list) : unit =
             let ba = nx k in
             let bs = nx k in
             skip_to k "A";
-            let d = match parse_abs k with AbsNone -> AMNone | AbsDwarf (p, fs) -> AMDwarf (p, fs) in
+            let d = match parse_abs k with AbsNone -> AMNone | AbsDwarf (p, fs) -> AMDwarf (p, fs) | AbsPe _ -> AMPe in
             Hashtbl.replace mods id { mstart = st; mend = en; base_avma = ba; base_svma = bs; mdat = d };
             "ok"
           | "new" ->
